@@ -25,6 +25,7 @@ class World:
         self.methods = {}       # ('Class', 'meth') -> python model fn(ex, recv, args, kwargs, line)
         self.rec_methods = {}   # ('RecName', 'meth') -> model
         self.py_objects = {}    # dotted path -> concrete python object override
+        self.properties = {}    # ('Class', 'attr') -> (getter contract path, setter contract path)
         self.imports_cache = {}
         self.trusted = []
 
@@ -379,6 +380,11 @@ class World:
                 return pc.cls(args[0])
             except ValueError:
                 raise _Raise('ValueError', e.lineno)
+        if issubclass(pc.cls, enum.Enum) and len(args) == 1 and isinstance(args[0], V):
+            for m in pc.cls:
+                if ex.decide(ex.equal(args[0], m.value, e.lineno), e.lineno):
+                    return m
+            raise _Raise('ValueError', e.lineno)
         if pc.path in self.externs or pc.path in self.contracts:
             return self.call_function(ex, pc.path, args, kwargs, e)
         raise Unsupported('construction of %s' % pc.path)
@@ -403,6 +409,8 @@ class World:
     def call_contract(self, ex, kc, path, args, kwargs, e):
         names = kc.param_names
         vals = list(args)
+        if callable(getattr(kc, 'model', None)):
+            return kc.model(ex, vals, kwargs, e)
         for nm in names[len(vals):]:
             if nm in kwargs:
                 vals.append(kwargs[nm])
